@@ -167,10 +167,10 @@ def probe_d16():
     d = tempfile.mkdtemp(prefix='d16-')
     try:
         c = diskcache.FanoutCache(d, shards=4, size_limit=4000)
-        a = c._shards[0].size_limit
+        a = diskcache.Cache(os.path.join(d, '000')).size_limit
         c.close()
         c2 = diskcache.FanoutCache(d, shards=4)
-        b = c2._shards[0].size_limit
+        b = diskcache.Cache(os.path.join(d, '000')).size_limit
         c2.close()
         if a != b:
             return 'D16-probe: FanoutCache created with size_limit=4000 (shard limit %r) reopens with shard limit %r' % (a, b)
